@@ -7,8 +7,14 @@
               and what that task was seen to do when executed on a prepared
               environment (function / command line, injected values,
               depends_on, soft_depends_on)
-   "collect"  close_dependency_graph + check_unique_task_names on a graph of
-              real tasks: the tasks returned and whether the names were rejected.
+   "collect"  a job file whose job() returns the list e.job of real tasks (a
+              task may be listed several times) went through
+              valjean.cambronne.common.collect_tasks, build_graphs, or
+              close_dependency_graph + check_unique_task_names: whether the
+              job was rejected, whether a list of tasks came back (returned;
+              nothing comes back from a rejected collect_tasks) and that list.
+              names / rel are the names and the hard / soft dependencies of
+              the real task objects (tasks numbered dependencies first).
 
    The step clauses of Factory are evaluated on every event; every failing
    <<trace id, step, clause>> is collected (total verdict). *)
@@ -20,7 +26,7 @@ NEvents == Len(Events)
 
 Funcs == {}  Bases == {}  Keys == {}  KwNames == {}  Facs == {}  UserNames == {}  ArgLists == {}
 DepSets == {}  SDepSets == {}  MaxPos == 0  MixPosKw == TRUE  MaxLen == 1000000  AllowMap == TRUE  AllowError == TRUE
-Ops == {}  NTasks == 6  TaskNames == {}  RelKinds == {}
+Ops == {}  NTasks == Data.ntasks  TaskNames == {}  RelKinds == {}
 VARIABLES op, hist, behav, rel, tname, job, visited, frontier, cdone, rejected
 F == INSTANCE Factory
 
@@ -52,9 +58,10 @@ ReqFailing(e) ==
        \/ c = "ErrorOK" /\ ~F!StepErrorOK(hist, r, e.resp)}
 
 CollectFailing(e) ==
+   LET r == RelOf(e)  J == Set(e.job) IN
    {c \in {"Closure", "Unique"} :
-       \/ c = "Closure" /\ ~F!CollectOK(RelOf(e), Set(e.job), e.collected)
-       \/ c = "Unique" /\ ~F!RejectOK(RelOf(e), NamesOf(e), Set(e.job), e.rejected)}
+       \/ c = "Closure" /\ e.returned /\ ~F!CollectOK(r, J, e.collected)
+       \/ c = "Unique" /\ ~F!RejectOK(r, NamesOf(e), J, e.rejected)}
 
 Record(new) == IF new = {} THEN TRUE ELSE TLCSet(1, TLCGet(1) \cup new)
 
@@ -76,11 +83,12 @@ TStep ==
               /\ behav' = IF e.resp = Len(behav) + 1 THEN Append(behav, ObsOf(e.obs)) ELSE behav
               /\ UNCHANGED <<op, rel, tname, job, visited, frontier, cdone, rejected>>
         [] e.op = "collect" ->
+              LET r == RelOf(e)  J == Set(e.job)  reach == F!Reach(r, J) IN
               /\ Record({<<e.tid, e.step, c>> : c \in CollectFailing(e)})
               /\ op' = "collect" /\ hist' = <<>> /\ behav' = <<>>
-              /\ rel' = RelOf(e) /\ tname' = NamesOf(e) /\ job' = Set(e.job)
-              /\ visited' = F!Reach(RelOf(e), Set(e.job)) /\ frontier' = {}
-              /\ cdone' = TRUE /\ rejected' = F!DupNames(NamesOf(e), F!Reach(RelOf(e), Set(e.job)))
+              /\ rel' = r /\ tname' = NamesOf(e) /\ job' = J
+              /\ visited' = reach /\ frontier' = {}
+              /\ cdone' = TRUE /\ rejected' = F!DupNames(NamesOf(e), reach)
 TSpec == TInit /\ [][TStep]_tvars
 
 (* on the expectation shown in the state *)
